@@ -96,7 +96,13 @@ pub fn generate(stream: &str, n: usize, seed: u64, out: &mut dyn Write) {
         "decodenal" => for _ in 0..n { gen_decodenal(&mut r, out); },
         "refnal" => for _ in 0..n { gen_refnal(&mut r, out); },
         "acc" => for _ in 0..n { gen_acc(&mut r, out); },
-        "sei" => for _ in 0..n { gen_sei(&mut r, out); },
+        "sei" => {
+            // the 32-bit limit of the ff-extension coding: 16 843 009 ff bytes sum to 2^32 - 1, so one more non-zero byte overflows
+            // (type field, and size field behind a one-byte type); one byte fewer stays in range (and the payload is then missing)
+            if n >= 30000 { writeln!(out, "sei 06Rffx16843009.0100 1").unwrap(); }
+            if n >= 400000 { writeln!(out, "sei 0605Rffx16843009.fe00 1").unwrap(); writeln!(out, "sei 06Rffx16843008.fe0155 1").unwrap(); }
+            for _ in 0..n { gen_sei(&mut r, out); }
+        }
         "avcc" => for _ in 0..n { gen_avcc(&mut r, out); },
         "bits" => for _ in 0..n { gen_bits(&mut r, out); },
         "bits-exh" => gen_bits_exhaustive(n, out),
